@@ -151,6 +151,126 @@ class Rules:
             self.r_mark_ws(I, seg)
             self.r_delim_shape(I, seg)
             self.r_expect_table(I, seg)
+            self.r_nonempty_errpair(I, seg)
+            self.r_spec_purity(I, seg)
+
+    # -- R-NONEMPTY and R-ERR-PAIR ---------------------------------------------------------------
+    MAY_BE_EMPTY = {"EOF", "MacroSep", "MacroStringEmpty", "SEMI", "LPAREN", "RPAREN", "ASSIGN", "COMMA", "FSLASH",
+                    "StringExprEnd", "DatalinesData"}
+    RECOVERY = {"MissingExpectedRParen": "RPAREN", "MissingExpectedAssign": "ASSIGN", "MissingExpectedLParen": "LPAREN",
+                "MissingExpectedComma": "COMMA", "MissingExpectedFSlash": "FSLASH", "MissingExpectedSemiOrEOF": "SEMI"}
+
+    def consumed_between(self, st, p0, p1, evs, i0, i1):
+        """Lower bound of characters consumed between position labels p0 and p1 (events i0..i1)."""
+        mc = st.fields.get("_minc", {})
+        n = 0
+        if p0 in mc and p1 in mc:
+            n = mc[p1] - mc[p0]
+        if n <= 0:
+            for x in evs[i0:i1]:
+                if x.kind == "consume" and x.d.get("via") == "advance_by" and x.d.get("chars") is None:
+                    n = max(n, 1)   # advance_by(n) asserts n > 0 and R-ADVANCE-EVIDENCE backs the count
+                elif x.kind == "consume" and x.d.get("via") == "advance_by" and x.d.get("chars"):
+                    if str_evidence(st, x.d.get("pos"), len(x.d["chars"])) is not None:
+                        n = max(n, len(x.d["chars"]))   # the path compared exactly these chars with a literal
+        return n
+
+    def r_nonempty_errpair(self, I, seg):
+        from . import lea_prims
+        st = seg.st
+        evs = seg.events
+        for idx in range(seg.start, len(evs)):
+            e = evs[idx]
+            if e.kind == "emit" and e.d.get("owner") == seg.name:
+                ts = variant_set(I, st, e.d["type"])
+                if not ts:
+                    continue
+                sn = lea_prims.snap_of(e.d.get("byte"))
+                if sn is None:
+                    continue
+                # index of the governing start (cur_token write or mark) = first event at/after label p0
+                i0 = idx
+                for j in range(idx - 1, -1, -1):
+                    x = evs[j]
+                    if x.kind in ("consume",) and x.d.get("pos", 0) < sn[2]:
+                        break
+                    i0 = j
+                n = self.consumed_between(st, sn[2], e.d.get("pos"), evs, i0, idx)
+                key = "%s|%s" % (short_fn(seg.name), self.sites.key(e).split("|", 1)[-1])
+                self.bump("R-NONEMPTY", "emit_sites", key)
+                strict = ts - self.MAY_BE_EMPTY
+                if strict:
+                    ok = n >= 1
+                    if not ok:
+                        # a non-emptiness test of the pending text on the path
+                        for k, v in st.bfacts.items():
+                            if v is False and "is_empty" in repr(k) and "str_slice" in repr(k):
+                                ok = True
+                    I.ob("R-NONEMPTY", key, ok, self.sites.where(e),
+                         "token of type %s covers at least one consumed character" % sorted(strict)[:4] if ok else
+                         "a token of type %s can be emitted without any character consumed since its start (only %s may be empty); conditions: %s"
+                         % (sorted(strict)[:4], sorted(self.MAY_BE_EMPTY)[:5], "; ".join(st.conds[-4:])[:240]))
+                # converse of ERR-PAIR: an empty recovery symbol needs its diagnostic
+                rec = ts & set(self.RECOVERY.values())
+                if rec and n == 0 and len(ts) == 1 and not any(x.kind == "consume" for x in evs[i0:idx]):
+                    t = next(iter(ts))
+                    want = [k for k, v in self.RECOVERY.items() if v == t]
+                    have = False
+                    eof_semi = False
+                    for x in evs[seg.start:idx]:
+                        if x.kind == "error":
+                            ks = variant_set(I, st, x.d.get("err")) or set()
+                            if ks & set(want) or (t == "SEMI" and "UnterminatedDatalines" in ks):
+                                have = True
+                    if t == "SEMI" and short_fn(seg.name) == "finalize_lexing":
+                        eof_semi = True
+                    I.ob("R-ERR-PAIR", "%s|empty-%s-has-error" % (short_fn(seg.name), t), have or eof_semi, self.sites.where(e),
+                         "zero-width %s is preceded by its 'missing expected' diagnostic" % t if have or eof_semi else
+                         "a zero-width %s recovery token is emitted without the matching %s error" % (t, want))
+            if e.kind == "error" and e.d.get("owner") == seg.name:
+                ks = variant_set(I, st, e.d.get("err")) or set()
+                rk = ks & set(self.RECOVERY)
+                if not rk or len(ks) != 1:
+                    continue
+                k = next(iter(rk))
+                want = self.RECOVERY[k]
+                ok = False
+                why = "no token follows the error in the same step"
+                for x in evs[idx + 1:]:
+                    if x.kind == "consume":
+                        why = "input is consumed between the error and the recovery token"
+                        break
+                    if x.kind == "cur_token_write" and x.d.get("field") == "cur_token_byte_offset" and x.d.get("owner") != "Lexer::finalize_lexing":
+                        pass
+                    if x.kind == "emit":
+                        ts = variant_set(I, st, x.d["type"]) or set()
+                        sn = lea_prims.snap_of(x.d.get("byte"))
+                        same_pos = sn is not None and sn[2] == x.d.get("pos")
+                        ok = ts == {want} and same_pos
+                        why = "followed by %s at %s" % (sorted(ts), "the error position" if same_pos else "a different position")
+                        break
+                self.bump("R-ERR-PAIR", "errors", "%s|%s" % (short_fn(seg.name), k))
+                I.ob("R-ERR-PAIR", "%s|%s" % (short_fn(seg.name), k), ok, self.sites.where(e),
+                     "%s is immediately followed by a zero-width %s token at the same offset" % (k, want) if ok else
+                     "%s is not paired with a zero-width %s recovery token at the same offset (%s)" % (k, want, why))
+
+    # -- R-SPEC-PURITY: no diagnostics while a checkpoint is live ------------------------------------
+    def r_spec_purity(self, I, seg):
+        st = seg.st
+        for e in seg.events[seg.start:]:
+            if e.kind != "error" or e.d.get("owner") != seg.name:
+                continue
+            if e.d.get("ckpt") != "some":
+                continue
+            ks = variant_set(I, st, e.d.get("err")) or {"?"}
+            if ks <= {"UnterminatedComment"}:
+                continue   # only at end of input, after which nothing rolls back
+            if ks & set(INTERNAL_ERRORS):
+                continue   # reachability of internal errors is R-9XXX's obligation
+            key = "%s|%s" % (short_fn(seg.name), "/".join(sorted(ks))[:60])
+            I.ob("R-SPEC-PURITY", key, False, self.sites.where(e),
+                 "error %s is recorded while a checkpoint is live: the error list is not part of the checkpoint, so the "
+                 "diagnostic survives a rollback (and names a token index that may be truncated)" % sorted(ks))
 
     # ------------------------------------------------------------------
     def local_names(self, fname):
@@ -612,6 +732,9 @@ class Rules:
         self.bump("R-9XXX", "expect_symbol_ctors", self.sites.key(e))
         ts = variant_set(I, st, m.args[0]) if m.args else None
         cs = variant_set(I, st, m.args[1]) if len(m.args) > 1 else None
+        if (ts is None or cs is None) and len(m.args) == 2 and is_expect_field(m.args[0]) and is_expect_field(m.args[1]):
+            I.ob("R-9XXX", key + "|forwarded", True, F.file_line(e.site), "ExpectSymbol re-pushed with the fields of an existing ExpectSymbol mode")
+            return
         if ts is None or cs is None:
             I.ob("R-9XXX", key + "|nonconst", False, self.sites.where(e), "ExpectSymbol constructed with non-constant arguments %r" % (m,))
             return
@@ -838,6 +961,8 @@ def path_rules(fx, I, R, mode, ckpt, outs):
         ckpt_path_rules(ob, mode, o, None)
         if st.ckpt == "some" and any(e.kind == "ckpt" and e.d.get("op") == "set" for e in evs):
             seeds.append(st)
+        if mode == "Default":
+            pending_rule(fx, I, ob, o)
         # R-PROGRESS: every lex_token path consumes input or changes the mode stack
         # position labels are monotone in consumption; a rollback rewinds to the snapshot's label
         consumed = st.cursors["main"].pos > 0
@@ -846,7 +971,7 @@ def path_rules(fx, I, R, mode, ckpt, outs):
         handler = short_fn(last_fn[0]) if last_fn else "lex_token"
         arm = ""
         for e in evs:
-            if e.kind == "arm" and e.fn not in ("Lexer::lex_token", "Lexer::mode") and e.d.get("depth_fn", "") == "":
+            if e.kind == "arm" and e.fn not in ("Lexer::lex_token", "Lexer::mode") and not e.d["match"].get("exp"):
                 arm = pat_text(e.d["match"]["arms"][e.d["arm"]]["pat"])
                 break
         key = "%s|%s|%s" % (mode, handler, arm)
@@ -858,6 +983,44 @@ def path_rules(fx, I, R, mode, ckpt, outs):
     obs[("_meta", "regions|" + mode)] = {"rule": "_meta", "key": "regions|" + mode, "ok": True, "site": "",
                                           "detail": json.dumps(reg), "n": 1}
     return obs
+
+
+def pending_rule(fx, I, ob, o):
+    """R-PENDING: on macro-free open-code paths the statement flag follows the last DEFAULT token."""
+    st = o.st
+    evs = st.events
+    for e in evs:
+        if e.kind == "enter" and e.callee in ("Lexer::lex_macro_identifier", "Lexer::lex_macro_comment", "Lexer::lex_macro_call"):
+            return
+        if e.kind == "leave" and e.callee == "Lexer::lex_macro_var_expr" and isinstance(e.d.get("ret"), Const) and e.d["ret"].v is True:
+            return
+    last_def = None
+    for e in evs:
+        if e.kind == "emit":
+            cs = variant_set(I, st, e.d["channel"])
+            if cs == {"DEFAULT"}:
+                last_def = e
+    if last_def is None:
+        return
+    ts = variant_set(I, st, last_def.d["type"])
+    if not ts:
+        return
+    sets = [e for e in evs if e.kind == "pending" and e.d.get("op") == "set"]
+    val = sets[-1].d.get("value") if sets else None
+    arm = ""
+    for e in evs:
+        if e.kind == "arm" and e.fn == "Lexer::dispatch_mode_default" and not e.d["match"].get("exp"):
+            arm = pat_text(e.d["match"]["arms"][e.d["arm"]]["pat"])
+            break
+    want = False if ts == {"SEMI"} else (True if "SEMI" not in ts else None)
+    if want is None:
+        return
+    got = val.v if isinstance(val, Const) else None
+    key = "dispatch_mode_default|%s|last=%s" % (arm, "SEMI" if want is False else "other")
+    ob("R-PENDING", key, got == want, F.file_line(last_def.d.get("osite") or last_def.site or "?"),
+       "after a statement-%s token the pending-statement flag is %s" % ("closing ';'" if want is False else "opening/continuing", want) if got == want else
+       "open-code path (arm %s) whose last DEFAULT token is %s leaves the pending-statement flag %s (expected %s): a following "
+       "`* ...;` is mis-predicted" % (arm, sorted(ts)[:3], got, want))
 
 
 # ---------------------------------------------------------------------------
@@ -955,3 +1118,51 @@ def explore_regions(I, seeds, ob, max_depth=30, max_states=600):
             if o.st.ckpt == "some":
                 work.append((o.st, depth + 1))
     return {"states": n_states, "deepest": deepest}
+
+
+def finalize_rules(fx, I, R, mode, outs):
+    """R-FINALIZE-ONCE: the unwinding loop of finalize_lexing has already popped the mode it is closing;
+    nothing it calls may pop or push again."""
+    obs = {}
+
+    def ob(rule, key, ok, site="", detail=""):
+        k = (rule, key)
+        cur = obs.get(k)
+        if cur is None:
+            obs[k] = {"rule": rule, "key": key, "ok": bool(ok), "site": site, "detail": detail, "n": 1}
+        else:
+            cur["n"] += 1
+            if cur["ok"] and not ok:
+                cur.update(ok=False, site=site, detail=detail)
+    for o in outs:
+        evs = o.st.events
+        cur_arm = None
+        pops = 0
+        for e in evs:
+            if e.kind in ("loop_enter", "loop_widen") and e.fn == "Lexer::finalize_lexing":
+                pops = 0
+                cur_arm = None
+            elif e.kind == "pop":
+                pops += 1
+                if pops == 1:
+                    m = e.d.get("mode")
+                    cur_arm = m.variant if isinstance(m, Enum) else None
+                    if cur_arm is None:
+                        f = o.st.vfacts.get(I.vkey(m)) if m is not None else None
+                        if f and f[0]:
+                            cur_arm = "/".join(sorted(f[0]))[:40]
+                else:
+                    own = short_fn(e.d.get("owner") or "?")
+                    ob("R-FINALIZE-ONCE", "finalize_lexing|%s|second-pop@%s" % (cur_arm or mode, own), False, F.file_line(e.d.get("osite") or e.site or "?"),
+                       "while unwinding mode %s at end of input, %s pops the mode stack again: the mode below is discarded "
+                       "without its closing token / diagnostic (e.g. a pending StringExpr loses its StringExprEnd)" % (cur_arm or mode, own))
+            elif e.kind == "push":
+                m = e.d.get("mode")
+                # a balanced re-push of the mode being closed directly before the delegate pops it is fine
+                if pops >= 1 and isinstance(m, Enum) and m.variant == (cur_arm or ""):
+                    pops -= 1
+                else:
+                    ob("R-FINALIZE-ONCE", "finalize_lexing|%s|push" % (cur_arm or mode), False, F.file_line(e.d.get("osite") or e.site or "?"),
+                       "finalize_lexing pushes mode %r while unwinding" % (m,))
+        ob("R-FINALIZE-ONCE", "finalize_lexing|%s|iteration" % mode, True, "", "unwinding %s pops exactly once per iteration" % mode)
+    return obs
